@@ -34,6 +34,7 @@ type observation struct {
 	pages    []string // per part, the text the format reader holds for it
 	names    []string // xlsx: SheetNames()
 	notes    []string // pptx: per slide, Slide(i).Notes
+	hrefs    []string // epub: per chapter, Chapter.Href (the archive name it was read from)
 	tOpened  bool
 	tErr     string
 	tCount   int
@@ -153,6 +154,7 @@ func observe(p *pkg, path string) (string, *observation) {
 			var out []string
 			for _, ch := range rd.Chapters() {
 				o.pages = append(o.pages, string(ch.Content))
+				o.hrefs = append(o.hrefs, ch.Href)
 				cid := "?"
 				if id, ok := byContent[string(ch.Content)]; ok {
 					cid = fmt.Sprint(id)
@@ -374,6 +376,37 @@ func oracles(c *hx.Ctx, p *pkg, k kase, o *observation) {
 			return fmt.Sprintf("text of declared part %d (%s) appears in %d Document pages, %d reader parts, %d times in Text(); %s", i, d.Tok, inDoc, inRd, strings.Count(o.tText, d.Tok), desc())
 		})
 	}
+	// a resource that the spine lists several times (same idref again, another manifest item
+	// with the same href, another spelling of the href) is one part: its text is presented
+	// exactly once, at the position of its first listing (E lists every resource once, at its
+	// first position: repetitions are declared entries of state stRepeat)
+	if f == "epub" {
+		reps := p.repeatedResources()
+		for i, d := range E {
+			if reps[d.Name] == 0 {
+				continue
+			}
+			var rdAt, docAt []int
+			for j, pg := range o.pages {
+				if strings.Contains(pg, d.Tok) {
+					rdAt = append(rdAt, j)
+				}
+			}
+			for j, pg := range o.docPages {
+				if strings.Contains(pg, d.Tok) {
+					docAt = append(docAt, j)
+				}
+			}
+			inText := strings.Count(o.tText, d.Tok)
+			good := len(rdAt) == 1 && rdAt[0] == i
+			if o.tOpened && o.tErr == "" {
+				good = good && len(docAt) == 1 && docAt[0] == i && inText == 1
+			}
+			c.Check("C18/epub-repeated-resource-is-one-part", good, k, func() string {
+				return fmt.Sprintf("resource %q (%s) is listed %d times in the spine (first as declared readable part %d): it is presented as reader part(s) %v, Document page(s) %v, %d time(s) in Text(); want exactly part %d, page %d, once; %s", d.Name, d.Tok, reps[d.Name]+1, i, rdAt, docAt, inText, i, i, desc())
+			})
+		}
+	}
 	// speaker notes (pptx): the notes part's text belongs to its slide's page, and only there.
 	// Observed through Slide(i).Notes and through Text(), where a page's text runs from its
 	// own part's token to the next page's.
@@ -524,6 +557,18 @@ func RunCase(c *hx.Ctx, idx int, keep bool) {
 	if p.Oracle && o.panicked == "" {
 		oracles(c, p, k, o)
 	}
+	if p.Fmt == "epub" && o.opened && o.panicked == "" {
+		// whatever the declaration (also where it is ambiguous): no archive member is two parts
+		seen := map[string]int{}
+		twice := ""
+		for i, h := range o.hrefs {
+			if j, ok := seen[h]; ok && twice == "" {
+				twice = fmt.Sprintf("chapters %d and %d are both read from member %q", j, i, h)
+			}
+			seen[h] = i
+		}
+		c.Check("C18/epub-resource-presented-twice", twice == "", k, func() string { return twice + "; " + p.describe() })
+	}
 	// one opened reader, a generated sequence of calls (selections naming a subset or a
 	// permutation of the parts, Text/Markdown/Document interleaved and repeated): the
 	// statement after every call (seq.go), and the model once more on what the used
@@ -547,7 +592,13 @@ func RunCase(c *hx.Ctx, idx int, keep bool) {
 	}
 	E := p.expected()
 	c.Count(fmt.Sprintf("%s/declared-readable=%d", p.Fmt, len(E)))
-	if len(E) < len(p.Declared) {
+	unreadable := 0
+	for _, d := range p.Declared {
+		if d.State != stOK && d.State != stRepeat {
+			unreadable++
+		}
+	}
+	if unreadable > 0 {
 		c.Count(p.Fmt + "/has-unreadable-declared")
 	}
 	if len(p.Decoys) > 0 {
@@ -620,6 +671,41 @@ func RunCase(c *hx.Ctx, idx int, keep bool) {
 		}
 	}
 	if p.Fmt == "epub" {
+		first := map[string]int{}
+		for i, d := range p.Declared {
+			if d.State != stRepeat {
+				if d.Name != "" {
+					first[d.Name] = i
+				}
+				continue
+			}
+			if i > 0 && p.Declared[i-1].State == stRepeat && p.Declared[i-1].ID == d.ID {
+				continue // a further copy of the same repetition (flood)
+			}
+			way := strings.TrimSuffix(d.RepeatWay, "/added-item-first")
+			c.Count("epub/spine-repeat-way:" + way)
+			if way != d.RepeatWay {
+				c.Count("epub/spine-repeat-added-item-first")
+			}
+			at := first[d.Name]
+			switch st := p.Declared[at].State; {
+			case st == stMissing:
+				c.Count("epub/spine-repeat-of-missing-member")
+			case st == stOK:
+				c.Count("epub/spine-repeat-of-readable-part")
+			}
+			if i > 0 && p.Declared[i-1].Name == d.Name {
+				c.Count("epub/spine-repeat-adjacent")
+			} else {
+				c.Count("epub/spine-repeat-apart")
+			}
+		}
+		if n := len(p.repeatedResources()); n > 0 {
+			c.Count(fmt.Sprintf("epub/repeated-resources=%d", n))
+			if p.Oracle {
+				c.Count("epub/repeated-resources-with-oracle")
+			}
+		}
 		for _, d := range E {
 			if strings.Contains(d.Ref, "+") {
 				c.Count("epub/href-with-plus")
@@ -685,7 +771,7 @@ func hrefOps(c *hx.Ctx, from, n int) {
 }
 
 func Run(c *hx.Ctx) {
-	c.Rep.Rule = "packages: XLSX / PPTX / EPUB 2+3 written by the harness's own writers from a logical package = declared list (1-6 parts, each with a unique text token; states ok/missing/malformed/dangling/wrong-kind), decoy parts (unreferenced; some listed in rels/manifest but not declared), XLSX sheetId values a random permutation (non-ascending, sparse) unrelated to position and to r:id, PPTX speaker-notes parts with their own unique token behind the slide's own relationship part (for readable, unreadable and decoy slides; conventional/renamed/absolute targets, numbered independently of the slides), part paths nested/renamed/absolute/with dot segments, file numbers a random permutation of the declared order, ZIP member order another random permutation, optional parts (rels, sharedStrings, docProps, mimetype, NCX, nav) randomly absent; hrefs percent-encoded in 4 styles incl. space, unicode, '+', '%', '#'; near-name members in a quarter of the packages (1-2 members whose name differs from a declared part's only in the letter case of one path segment, in NFC/NFD form, or that is the EPUB href without percent-decoding; as a second declared part, an unreferenced left-over or a listed left-over, on either side in ZIP order, also beside a missing declared member). call sequences: on one opened reader of every package that opens, 2-6 generated calls (xlsx ExtractOptions.Sheets / pptx ExtractOptions.SlideNumbers selections through TextWithOptions, MarkdownWithOptions, MarkdownWithRAGOptions: a single part that is not the first, suffix, ascending non-prefix subset, reversed list, permutation, subset in any order, prefix, and lenient selections with out-of-range or repeated indices; epub TextWithOptions/MarkdownWithOptions with the 4 navigation modes; Text, Markdown, Document, part accessors, Tables/SheetByName/Metadata interleaved, repeated), the statement evaluated on every accessor after every call and against a fresh reader, and the model compared once more with the used reader. reader API model (api.go): per PPTX package op c18.pptxn (which notes part each presented slide carries; slide relationship parts are in the parse table with their Types, notes parts as a kind of their own; one package in five has an irregular notes plumbing: notes part or slide relationship part not well-formed, notesSlide relationship naming a slide, root-relative target without '/', two notesSlide relationships, ISO-strict relationship type, targets with dot segments / doubled or trailing slashes / percent signs, with a notes part put where they lead or under the literal name; fallback decks carry candidate names that are not plain slideN.xml, some with notes), and per package op c18.api: ONE opened reader, a history of 3-7 calls (count, names, Sheet/Slide(i) with i from -1 to n, SheetByName, TextWithOptions / MarkdownWithOptions / MarkdownWithRAGOptions with the selection classes above or none and random flags and delimiters, Document, Chapters, epub navigation modes -1..9) interleaved with up to two front-door calls tabula.Open(f).PageCount() / .Pages(..).ExcludeHeaders().ExcludeFooters().Text() / .Document(); replies compared byte for byte (texts) or as sequences of part ids found through the unique tokens (markdown, pages); what each part's bytes parse to is passed to the model keyed by content id (sheet grids and slide bodies from the reader, notes text, chapter text/markdown/page count from htmldoc run on the member bytes the harness wrote); slides carry bulleted, numbered and indented paragraphs and footer / slide-number / date / header placeholders chosen by a hash of the token; one package in sixteen carries members the front door's content sniffing looks at (a mimetype member naming this, another or no known format, META-INF/container.xml or another OOXML main part beside the package's own: refused by tabula.Open where the content names another format, no oracle verdict there, the model's admission step must agree); one EPUB in twelve has a blank page (empty body, no token) in the spine (correspondence only). href ops: structured (reference built from the member it denotes) and junk strings. non-trivial = the package opened with at least one part; distinct by op line"
+	c.Rep.Rule = "packages: XLSX / PPTX / EPUB 2+3 written by the harness's own writers from a logical package = declared list (1-6 parts, each with a unique text token; states ok/missing/malformed/dangling/wrong-kind), decoy parts (unreferenced; some listed in rels/manifest but not declared), XLSX sheetId values a random permutation (non-ascending, sparse) unrelated to position and to r:id, PPTX speaker-notes parts with their own unique token behind the slide's own relationship part (for readable, unreadable and decoy slides; conventional/renamed/absolute targets, numbered independently of the slides), part paths nested/renamed/absolute/with dot segments, file numbers a random permutation of the declared order, ZIP member order another random permutation, optional parts (rels, sharedStrings, docProps, mimetype, NCX, nav) randomly absent; hrefs percent-encoded in 4 styles incl. space, unicode, '+', '%', '#'; near-name members in a quarter of the packages (1-2 members whose name differs from a declared part's only in the letter case of one path segment, in NFC/NFD form, or that is the EPUB href without percent-decoding; as a second declared part, an unreferenced left-over or a listed left-over, on either side in ZIP order, also beside a missing declared member). call sequences: on one opened reader of every package that opens, 2-6 generated calls (xlsx ExtractOptions.Sheets / pptx ExtractOptions.SlideNumbers selections through TextWithOptions, MarkdownWithOptions, MarkdownWithRAGOptions: a single part that is not the first, suffix, ascending non-prefix subset, reversed list, permutation, subset in any order, prefix, and lenient selections with out-of-range or repeated indices; epub TextWithOptions/MarkdownWithOptions with the 4 navigation modes; Text, Markdown, Document, part accessors, Tables/SheetByName/Metadata interleaved, repeated), the statement evaluated on every accessor after every call and against a fresh reader, and the model compared once more with the used reader. reader API model (api.go): per PPTX package op c18.pptxn (which notes part each presented slide carries; slide relationship parts are in the parse table with their Types, notes parts as a kind of their own; one package in five has an irregular notes plumbing: notes part or slide relationship part not well-formed, notesSlide relationship naming a slide, root-relative target without '/', two notesSlide relationships, ISO-strict relationship type, targets with dot segments / doubled or trailing slashes / percent signs, with a notes part put where they lead or under the literal name; fallback decks carry candidate names that are not plain slideN.xml, some with notes), and per package op c18.api: ONE opened reader, a history of 3-7 calls (count, names, Sheet/Slide(i) with i from -1 to n, SheetByName, TextWithOptions / MarkdownWithOptions / MarkdownWithRAGOptions with the selection classes above or none and random flags and delimiters, Document, Chapters, epub navigation modes -1..9) interleaved with up to two front-door calls tabula.Open(f).PageCount() / .Pages(..).ExcludeHeaders().ExcludeFooters().Text() / .Document(); replies compared byte for byte (texts) or as sequences of part ids found through the unique tokens (markdown, pages); what each part's bytes parse to is passed to the model keyed by content id (sheet grids and slide bodies from the reader, notes text, chapter text/markdown/page count from htmldoc run on the member bytes the harness wrote); slides carry bulleted, numbered and indented paragraphs and footer / slide-number / date / header placeholders chosen by a hash of the token; one package in sixteen carries members the front door's content sniffing looks at (a mimetype member naming this, another or no known format, META-INF/container.xml or another OOXML main part beside the package's own: refused by tabula.Open where the content names another format, no oracle verdict there, the model's admission step must agree); one EPUB in twelve has a blank page (empty body, no token) in the spine (correspondence only); three EPUBs in ten have 1-3 spine entries that list an already listed resource again (repeats.go: the same idref again, a second manifest item with the same href, a second manifest item whose href is spelled differently — a needlessly percent-encoded character, a './' segment, an 'x/../' detour — and resolves to the same member; right behind the first listing or further down; either of the two items first; also of a resource whose member is missing; one in twelve of those lists the resource 40-300 times): such a resource is one part at its first position in the logical package, which is what all oracles expect. href ops: structured (reference built from the member it denotes) and junk strings. non-trivial = the package opened with at least one part; distinct by op line"
 	n := c.N(660, 9900)          // (600, 9000) before the correspondence-only variants of api.go took a share of the packages
 	only := os.Getenv("C18_FMT") // debugging aid: restrict the stream to one format
 	for i := 0; i < n; i++ {
